@@ -421,3 +421,34 @@ def known_unicode_whitespace_digits(k: int) -> bool:
     """
     return _try(T2['kf_bool'], s=chr(0x205f) + '0') == 'FORG0001' and _try(T2['kf_int'], s=chr(0x661) + chr(0x662)) == 'FORG0001' \
         and _try(T2['kf_date'], s=chr(0x2005) + '2000-01-01') == [False]
+
+
+# --- added after round-4 seeded changes: casts between date/time types keep the components they share; xs:long bounds -------------------
+
+T2.update(parse_all({
+    'dt2time': 'string(xs:time(xs:dateTime($s)))', 'dt2date': 'string(xs:date(xs:dateTime($s)))', 'dt2time_cast': 'string(xs:dateTime($s) cast as xs:time)',
+    'secs': 'seconds-from-time(xs:time(xs:dateTime($s))) = seconds-from-dateTime(xs:dateTime($s))',
+    'date2dt': 'string(xs:dateTime(xs:date($d)))', 'dt2gy': 'string(xs:gYear(xs:dateTime($s)))', 'dt2gmd': 'string(xs:gMonthDay(xs:dateTime($s)))'}))
+DT_LEX = ('2000-01-01T12:30:15.25Z', '1999-12-31T23:59:59.999999-05:00', '2024-02-29T00:00:00', '0001-01-01T00:00:00.5+14:00', '2000-06-15T24:00:00')
+
+
+@ob(budget=120, bound='5 xs:dateTime lexical forms (fractional seconds, timezones, 24:00:00; index chosen by the solver) cast to xs:time, xs:date, '
+                      'xs:gYear, xs:gMonthDay by constructor and cast as: the target keeps exactly the shared components and the timezone',
+    funcs=['elementpath/datatypes/datetime.py:Time.make/Date.make/GregorianYear.make', 'elementpath/xpath2/_xpath2_constructors.py'])
+def datetime_casts_keep_components(i: int) -> bool:
+    """
+    pre: 0 <= i <= 4
+    post: _
+    """
+    s = DT_LEX[[k for k in range(5) if k == i][0]]
+    date, rest = s.split('T')
+    tz = ''
+    for mark in ('Z', '+', '-'):
+        if mark in rest:
+            tz = rest[rest.index(mark):]
+            rest = rest[:rest.index(mark)]
+            break
+    if rest == '24:00:00':
+        return _try(T2['dt2time'], s=s) == ['00:00:00' + tz] and _try(T2['dt2date'], s=s) == ['2000-06-16' + tz]
+    return _try(T2['dt2time'], s=s) == [rest + tz] and _try(T2['dt2time_cast'], s=s) == [rest + tz] and _try(T2['dt2date'], s=s) == [date + tz] \
+        and _try(T2['secs'], s=s) == [True] and _try(T2['dt2gy'], s=s) == [date[:4] + tz] and _try(T2['dt2gmd'], s=s) == ['-' + date[4:] + tz]
